@@ -133,17 +133,17 @@ func prefixes(pkg string, full bool) []string {
 	return ps
 }
 
-var spares = []int{0, 1, 2, 3, 5, 8, 13, 16, 31, 32, 40, 64}
+var spares = []int{0, 1, 2, 3, 5, 7, 8, 9, 10, 11, 13, 16, 31, 32, 35, 36, 37, 40, 44, 45, 46, 64, 4200}
 
 func values(pkg string) []Case {
 	var cs []Case
 	switch pkg {
 	case "date":
-		for _, d := range [][3]int{{1, 1, 1}, {0, 1, 1}, {2022, 8, 7}, {9999, 12, 31}, {2000, 2, 29}, {12345, 6, 7}, {999999999, 12, 31}, {-1, 1, 1}, {-400, 3, 1}, {100, 10, 10}} {
+		for _, d := range [][3]int{{9998, 12, 31}, {10000, 1, 1}, {10001, 1, 1}, {999, 1, 1}, {1000, 1, 1}, {99999, 12, 31}, {100000, 1, 1}, {-9999, 1, 1}, {-10000, 1, 1}, {1, 1, 1}, {0, 1, 1}, {2022, 8, 7}, {9999, 12, 31}, {2000, 2, 29}, {12345, 6, 7}, {999999999, 12, 31}, {-1, 1, 1}, {-400, 3, 1}, {100, 10, 10}} {
 			cs = append(cs, Case{Pkg: pkg, Y: d[0], M: d[1], D: d[2]})
 		}
 	case "roman":
-		for _, n := range []uint64{0, 1, 4, 9, 14, 40, 49, 90, 99, 400, 444, 499, 900, 949, 999, 1666, 1994, 3999, 4000, 4999, 15749, 32000, 64949, 129999} {
+		for _, n := range []uint64{0, 1, 4, 9, 14, 40, 49, 90, 99, 400, 444, 499, 900, 949, 999, 1666, 1994, 3999, 4000, 4999, 15749, 32000, 64949, 129999, 4095999, 4096000, 4096001, 5000004} {
 			cs = append(cs, Case{Pkg: pkg, N: n})
 		}
 	case "sem":
@@ -222,7 +222,7 @@ func TestCheck(t *testing.T) {
 			})
 		})
 	}
-	r.Exhaustive("grid of boundary values x every flag subset (date 2, roman 128, sem 2, size 4, uu 2) x prefix list (every single byte value for the listed flag subsets) x 12 spare capacities")
+	r.Exhaustive("grid of boundary values x every flag subset (date 2, roman 128, sem 2, size 4, uu 2) x prefix list (every single byte value for the listed flag subsets) x 23 spare capacities")
 
 	r.Phase("urn", func() {
 		r.Serial(func(w *vkit.W) {
